@@ -122,7 +122,16 @@ WrapPairs ==
       [kind |-> "wrap", t |-> "Exec", field |-> "fp", note |-> "the value plus 2^128 (an integer narrowed to 128 bits before hashing gives the same bytes)", chain |-> "ethereum",
        a |-> BaseEvent("Exec"), b |-> [BaseEvent("Exec") EXCEPT !.fp = "340282366920938463463374607431768211459"]] }
 
-Pairs == {p \in MutationPairs : WellFormed(p)} \cup ShiftPairs \cup WrapPairs
+\* members of a signer-set event: the same addresses with another power (the order by power is unchanged), a member more
+MemberPairs ==
+    { [kind |-> "field", t |-> "SSExec", field |-> "m", a |-> BaseEvent("SSExec"),
+       b |-> [BaseEvent("SSExec") EXCEPT !.m = <<<<"e1", <<40000, 0>>>>, <<"e2", <<25535, 65534>>>>>>]],
+      [kind |-> "field", t |-> "SSExec", field |-> "m", a |-> BaseEvent("SSExec"),
+       b |-> [BaseEvent("SSExec") EXCEPT !.m = <<<<"e1", <<40001, 0>>>>, <<"e2", <<25535, 65535>>>>>>]],
+      [kind |-> "field", t |-> "SSExec", field |-> "m", a |-> BaseEvent("SSExec"),
+       b |-> [BaseEvent("SSExec") EXCEPT !.m = <<<<"e1", <<40000, 0>>>>, <<"e2", <<25535, 65535>>>>, <<"e3", <<0, 0>>>>>>]] }
+
+Pairs == {p \in MutationPairs : WellFormed(p)} \cup ShiftPairs \cup WrapPairs \cup MemberPairs
 
 \* ---- the model: one state per pair; the invariant is the property on the specification's identifier
 VARIABLE pair
